@@ -247,6 +247,32 @@ def run(ctx, rep):
             break
         if not ok:
             continue
+        # copies are independent in BOTH directions: after copying, edits of the ORIGINAL (in place, through the mutable view, and
+        # of its constants) must not reach the copy or a copy of the copy
+        try:
+            with watchdog(20.0):
+                cp = ag.copy()
+                cp2 = cp.copy()
+                fresh_first = rng.random() < 0.5
+                b1 = observations(cp, x) if fresh_first else None
+                cmd_before = np.asarray(cp.command_array).tolist()
+                ag.mutable_command_array[0] = [G.INTEGER, 9, 9]
+                ag.mutable_command_array[len(cmd_before) - 1] = [G.VARIABLE, 0, 0]
+                ag.set_local_optimization_params([321.0] * ag.get_number_local_optimization_params())
+                rep.count("copy_then_edit_original")
+                case = {"use_simplification": use_simp, "ops": list(ops), "then": "copy, copy of the copy, edit the original in place"}
+                for name, c in (("the copy", cp), ("the copy of the copy", cp2)):
+                    if np.asarray(c.command_array).tolist() != cmd_before:
+                        rep.violate(f"editing the original in place changed the command array of {name}", "C18:copy-aliased", case)
+                        break
+                    o_c, o_f = observations(c, x), observations(fresh_like(c), x)
+                    if o_c != o_f or (b1 is not None and c is cp and o_c != b1):
+                        rep.violate(f"after the original was edited, {name} no longer behaves as its own stack and constants dictate", "C18:copy-aliased", case)
+                        break
+        except (MemoryError, OverflowError, RecursionError, Timeout):
+            rep.count("cas_resource_error")
+        except Exception as exc:
+            rep.violate(f"copy / edit of the original raised {type(exc).__name__}: {exc}", "C18:observation-raised", {"ops": list(ops)})
         rep.case((use_simp, tuple(ops)), writes_after_obs > 0)
         rep.count("use_simplification", use_simp)
         rep.count("n_ops", min(len(ops), 30) // 5 * 5)
